@@ -181,4 +181,41 @@ theorem empty_file_contributes_nothing (safeKeys : List Cfg.Bytes) (os : Bool) (
     Cfg.readSource safeKeys st ⟨[[]], os⟩ = st := by
   simp [Cfg.readSource, Cfg.stepLine]
 
+/-! ties to config/git_fetcher.go (readGitConfig) as it is in /repo now -/
+set_option maxRecDepth 100000 in
+/-- a key of a safe-only source is let through without the allow-list in exactly three places: the priority of
+    an extension, a key of the `remote` section (after the guard below), and a key whose FIRST component is `lfs`
+    and whose LAST component is `access` (the wild card lfs.<url>.access, tested on the components, not by a
+    pattern over the text) -/
+theorem gen_keys_let_through :
+    Gen.allowedAssignments =
+      [
+       -- true | len(parts) == 4 && parts[0] == "lfs" && parts[1] == "extension" && case "priority"
+       [116, 114, 117, 101, 32, 124, 32, 108, 101, 110, 40, 112, 97, 114, 116, 115, 41, 32, 61, 61, 32, 52, 32, 38, 38, 32, 112, 97, 114, 116, 115, 91, 48, 93, 32, 61, 61, 32, 34, 108, 102, 115, 34, 32, 38, 38, 32, 112, 97, 114, 116, 115, 91, 49, 93, 32, 61, 61, 32, 34, 101, 120, 116, 101, 110, 115, 105, 111, 110, 34, 32, 38, 38, 32, 99, 97, 115, 101, 32, 34, 112, 114, 105, 111, 114, 105, 116, 121, 34],
+       -- true | !(len(parts) == 4 && parts[0] == "lfs" && parts[1] == "extension") && len(parts) > 1 && parts[0] == "remote"
+       [116, 114, 117, 101, 32, 124, 32, 33, 40, 108, 101, 110, 40, 112, 97, 114, 116, 115, 41, 32, 61, 61, 32, 52, 32, 38, 38, 32, 112, 97, 114, 116, 115, 91, 48, 93, 32, 61, 61, 32, 34, 108, 102, 115, 34, 32, 38, 38, 32, 112, 97, 114, 116, 115, 91, 49, 93, 32, 61, 61, 32, 34, 101, 120, 116, 101, 110, 115, 105, 111, 110, 34, 41, 32, 38, 38, 32, 108, 101, 110, 40, 112, 97, 114, 116, 115, 41, 32, 62, 32, 49, 32, 38, 38, 32, 112, 97, 114, 116, 115, 91, 48, 93, 32, 61, 61, 32, 34, 114, 101, 109, 111, 116, 101, 34],
+       -- true | !(len(parts) == 4 && parts[0] == "lfs" && parts[1] == "extension") && !(len(parts) > 1 && parts[0] == "remote") && len(parts) > 2 && parts[0] == "lfs" && parts[len(parts)-1] == "access"
+       [116, 114, 117, 101, 32, 124, 32, 33, 40, 108, 101, 110, 40, 112, 97, 114, 116, 115, 41, 32, 61, 61, 32, 52, 32, 38, 38, 32, 112, 97, 114, 116, 115, 91, 48, 93, 32, 61, 61, 32, 34, 108, 102, 115, 34, 32, 38, 38, 32, 112, 97, 114, 116, 115, 91, 49, 93, 32, 61, 61, 32, 34, 101, 120, 116, 101, 110, 115, 105, 111, 110, 34, 41, 32, 38, 38, 32, 33, 40, 108, 101, 110, 40, 112, 97, 114, 116, 115, 41, 32, 62, 32, 49, 32, 38, 38, 32, 112, 97, 114, 116, 115, 91, 48, 93, 32, 61, 61, 32, 34, 114, 101, 109, 111, 116, 101, 34, 41, 32, 38, 38, 32, 108, 101, 110, 40, 112, 97, 114, 116, 115, 41, 32, 62, 32, 50, 32, 38, 38, 32, 112, 97, 114, 116, 115, 91, 48, 93, 32, 61, 61, 32, 34, 108, 102, 115, 34, 32, 38, 38, 32, 112, 97, 114, 116, 115, 91, 108, 101, 110, 40, 112, 97, 114, 116, 115, 41, 45, 49, 93, 32, 61, 61, 32, 34, 97, 99, 99, 101, 115, 115, 34]
+      ]
+      := by decide
+
+set_option maxRecDepth 100000 in
+/-- and a key is reported as ignored in exactly these places: extension keys of a safe-only source, `remote`
+    keys other than remote.<name>.lfsurl, and whatever is not let through and not on the allow-list -/
+theorem gen_keys_ignored :
+    Gen.ignoredAssignments =
+      [
+       -- append(ignored, key) | len(parts) == 4 && parts[0] == "lfs" && parts[1] == "extension" && gc.OnlySafeKeys
+       [97, 112, 112, 101, 110, 100, 40, 105, 103, 110, 111, 114, 101, 100, 44, 32, 107, 101, 121, 41, 32, 124, 32, 108, 101, 110, 40, 112, 97, 114, 116, 115, 41, 32, 61, 61, 32, 52, 32, 38, 38, 32, 112, 97, 114, 116, 115, 91, 48, 93, 32, 61, 61, 32, 34, 108, 102, 115, 34, 32, 38, 38, 32, 112, 97, 114, 116, 115, 91, 49, 93, 32, 61, 61, 32, 34, 101, 120, 116, 101, 110, 115, 105, 111, 110, 34, 32, 38, 38, 32, 103, 99, 46, 79, 110, 108, 121, 83, 97, 102, 101, 75, 101, 121, 115],
+       -- append(ignored, key) | len(parts) == 4 && parts[0] == "lfs" && parts[1] == "extension" && case "clean" && gc.OnlySafeKeys
+       [97, 112, 112, 101, 110, 100, 40, 105, 103, 110, 111, 114, 101, 100, 44, 32, 107, 101, 121, 41, 32, 124, 32, 108, 101, 110, 40, 112, 97, 114, 116, 115, 41, 32, 61, 61, 32, 52, 32, 38, 38, 32, 112, 97, 114, 116, 115, 91, 48, 93, 32, 61, 61, 32, 34, 108, 102, 115, 34, 32, 38, 38, 32, 112, 97, 114, 116, 115, 91, 49, 93, 32, 61, 61, 32, 34, 101, 120, 116, 101, 110, 115, 105, 111, 110, 34, 32, 38, 38, 32, 99, 97, 115, 101, 32, 34, 99, 108, 101, 97, 110, 34, 32, 38, 38, 32, 103, 99, 46, 79, 110, 108, 121, 83, 97, 102, 101, 75, 101, 121, 115],
+       -- append(ignored, key) | len(parts) == 4 && parts[0] == "lfs" && parts[1] == "extension" && case "smudge" && gc.OnlySafeKeys
+       [97, 112, 112, 101, 110, 100, 40, 105, 103, 110, 111, 114, 101, 100, 44, 32, 107, 101, 121, 41, 32, 124, 32, 108, 101, 110, 40, 112, 97, 114, 116, 115, 41, 32, 61, 61, 32, 52, 32, 38, 38, 32, 112, 97, 114, 116, 115, 91, 48, 93, 32, 61, 61, 32, 34, 108, 102, 115, 34, 32, 38, 38, 32, 112, 97, 114, 116, 115, 91, 49, 93, 32, 61, 61, 32, 34, 101, 120, 116, 101, 110, 115, 105, 111, 110, 34, 32, 38, 38, 32, 99, 97, 115, 101, 32, 34, 115, 109, 117, 100, 103, 101, 34, 32, 38, 38, 32, 103, 99, 46, 79, 110, 108, 121, 83, 97, 102, 101, 75, 101, 121, 115],
+       -- append(ignored, key) | !(len(parts) == 4 && parts[0] == "lfs" && parts[1] == "extension") && len(parts) > 1 && parts[0] == "remote" && gc.OnlySafeKeys && (len(parts) < 3 || parts[len(parts)-1] != "lfsurl")
+       [97, 112, 112, 101, 110, 100, 40, 105, 103, 110, 111, 114, 101, 100, 44, 32, 107, 101, 121, 41, 32, 124, 32, 33, 40, 108, 101, 110, 40, 112, 97, 114, 116, 115, 41, 32, 61, 61, 32, 52, 32, 38, 38, 32, 112, 97, 114, 116, 115, 91, 48, 93, 32, 61, 61, 32, 34, 108, 102, 115, 34, 32, 38, 38, 32, 112, 97, 114, 116, 115, 91, 49, 93, 32, 61, 61, 32, 34, 101, 120, 116, 101, 110, 115, 105, 111, 110, 34, 41, 32, 38, 38, 32, 108, 101, 110, 40, 112, 97, 114, 116, 115, 41, 32, 62, 32, 49, 32, 38, 38, 32, 112, 97, 114, 116, 115, 91, 48, 93, 32, 61, 61, 32, 34, 114, 101, 109, 111, 116, 101, 34, 32, 38, 38, 32, 103, 99, 46, 79, 110, 108, 121, 83, 97, 102, 101, 75, 101, 121, 115, 32, 38, 38, 32, 40, 108, 101, 110, 40, 112, 97, 114, 116, 115, 41, 32, 60, 32, 51, 32, 124, 124, 32, 112, 97, 114, 116, 115, 91, 108, 101, 110, 40, 112, 97, 114, 116, 115, 41, 45, 49, 93, 32, 33, 61, 32, 34, 108, 102, 115, 117, 114, 108, 34, 41],
+       -- append(ignored, key) | !allowed && keyIsUnsafe(key)
+       [97, 112, 112, 101, 110, 100, 40, 105, 103, 110, 111, 114, 101, 100, 44, 32, 107, 101, 121, 41, 32, 124, 32, 33, 97, 108, 108, 111, 119, 101, 100, 32, 38, 38, 32, 107, 101, 121, 73, 115, 85, 110, 115, 97, 102, 101, 40, 107, 101, 121, 41]
+      ]
+      := by decide
+
 end C11
